@@ -29,13 +29,24 @@ Definition lock_eqb (a b : lock) : bool :=
 
 Definition cache_view (c : qty * qty) : Z * Z := (q_milli (fst c), q_value (snd c)).
 
+(* lastScaleOut feeds only the registration-lag metric (which DescribeInstances lookups are made): it is not decision-relevant
+   memory and is not compared *)
 Definition gstate_eqb (a b : gstate) : bool :=
-  lock_eqb (g_lock a) (g_lock b) && (g_delta a =? g_delta b) && optZ_eqb (g_last_out a) (g_last_out b)
+  lock_eqb (g_lock a) (g_lock b) && (g_delta a =? g_delta b)
   && pair_eqb Z.eqb Z.eqb (cache_view (g_cache a)) (cache_view (g_cache b))
   && list_eqb Z.eqb (g_taint_tracker a) (g_taint_tracker b) && list_eqb Z.eqb (g_force_tracker a) (g_force_tracker b).
 
+(* two journals are compared call by call; the taint list of an update payload is compared as a multiset (the order in which the
+   remaining taints are written back is not something any property fixes; C15's checker asks for a permutation too) *)
+Definition call_eqb_mod (a b : call) : bool :=
+  match a, b with
+  | CK (KUpdate n p ok), CK (KUpdate n' p' ok') =>
+      (n =? n') && Bool.eqb ok ok' && node_eqb (set_taints p []) (set_taints p' []) && perm_taints (n_taints p) (n_taints p')
+  | _, _ => call_eqb a b
+  end.
+
 Definition obs_group_eqb (proj : list call -> list call) (a b : obs_group) : bool :=
-  (og_name a =? og_name b) && list_eqb call_eqb (proj (og_calls a)) (proj (og_calls b))
+  (og_name a =? og_name b) && list_eqb call_eqb_mod (proj (og_calls a)) (proj (og_calls b))
   && gstate_eqb (og_state a) (og_state b) && (og_desired a =? og_desired b) && (og_tries a =? og_tries b).
 
 Definition case_agrees (proj : list call -> list call) (c : scan_case) : bool :=
@@ -73,7 +84,7 @@ Definition pi_none (l : list call) : list call := [].
 
 (* agreement on the projected journal and outcome; the in-memory state is compared only where a property is about it *)
 Definition obs_group_eqb' (with_state : bool) (proj : list call -> list call) (a b : obs_group) : bool :=
-  (og_name a =? og_name b) && list_eqb call_eqb (proj (og_calls a)) (proj (og_calls b))
+  (og_name a =? og_name b) && list_eqb call_eqb_mod (proj (og_calls a)) (proj (og_calls b))
   && (if with_state then gstate_eqb (og_state a) (og_state b) && (og_desired a =? og_desired b) && (og_tries a =? og_tries b) else true).
 
 Definition case_agrees' (with_state : bool) (proj : list call -> list call) (c : scan_case) : bool :=
